@@ -375,6 +375,10 @@ void StateMachine::Impl::stop()
         return;
     }
 
+    //! 如果当前状态的子状态机还在运行，要先停止子状态机，否则子状态机的退出动作不会被执行
+    if (curr_state_->sub_sm != nullptr)
+        curr_state_->sub_sm->stop();
+
     ++cb_level_;
     if (curr_state_->exit_action)
         curr_state_->exit_action(Event());
